@@ -260,8 +260,52 @@ def clapeyron_rule(ctx):
         raise AnalysisError("C12.R7: fewer than 2 concrete material laws found")
 
 
+def r9_by_reference(ctx, rule="C12.R9"):
+    """K18 applied to the material laws: a method whose return value is not a freshly built expression (`return self.C_n`, `return _ZEROS`)
+    hands out the law's own state.  Consumers in cardillo/rods that bind such a result to a local must not modify it in place.  The rule does
+    not forbid returning by reference (numpy code does so everywhere, the pinned tree in three places); it pins down who would corrupt it."""
+    from .. import cachepurity as cp
+    rep = ctx.rep
+    mod = ctx.repo.module(MM)
+    tree = mod.tree
+    globals_ = {t.id for st in tree.body if isinstance(st, ast.Assign) for t in st.targets if isinstance(t, ast.Name)}
+    names = {}
+    for cls in [c for c in tree.body if isinstance(c, ast.ClassDef)]:
+        for fn in [f for f in cls.body if isinstance(f, ast.FunctionDef)]:
+            for r in [x for x in ast.walk(fn) if isinstance(x, ast.Return) and x.value is not None]:
+                v = r.value
+                if (isinstance(v, ast.Attribute) and isinstance(v.value, ast.Name) and v.value.id == "self") or (isinstance(v, ast.Name) and v.id in globals_):
+                    names.setdefault(fn.name, []).append(f"{cls.name}.{fn.name}: `{norm_src(r)}`")
+    for k, v in sorted(names.items()):
+        rep.ok(rule, f"{MM}:{k}", f"handed out by reference: {'; '.join(v)[:200]}", trivial=True)
+    if not names:
+        rep.ok(rule, MM, "every method of the material laws returns a freshly built value")
+        return
+    nloc = 0
+    for rel, m in sorted(ctx.repo.modules.items()):
+        if not rel.startswith("cardillo/rods/"):
+            continue
+        for q, fn in m.defs().items():
+            if not isinstance(fn, ast.FunctionDef):
+                continue
+            res, locs = cp.inplace_uses(fn, set(names))
+            nloc += len(locs)
+            seen = set()
+            for st, l, call, how in res:
+                if id(st) in seen:
+                    continue
+                seen.add(id(st))
+                rep.bad(rule, f"{rel}:{q}", st, f"`{l}` is what `{norm_src(call)[:60]}` returns, and the material laws return this quantity by reference ({names[call.func.attr][0][:80]}); "
+                        f"{how} rewrites the law's own stiffness / shared block: every later evaluation of every rod using the law sees the modified tangent", f"{rel}:{st.lineno}")
+            if locs and not res:
+                rep.ok(rule, f"{rel}:{q}", f"{len(locs)} local(s) bound to by-reference results of the material law ({', '.join(sorted(locs)[:4])}), none modified in place")
+    rep.note(f"{rule}: {len(names)} by-reference methods, {nloc} consumer locals in cardillo/rods")
+
+
 def run(ctx):
     rep = ctx.rep
+    rep.rule("C12.R9", "tangents and stiffnesses the material laws hand out BY REFERENCE (`return self.C_n`, a shared module-level block) are never modified in place by the rod routines that receive them: the law stays the function of the strains it was constructed as", 3)
+    r9_by_reference(ctx)
     rep.rule("C12.R8", "forces keep one factor that vanishes at the reference strains (the energy vanishes there to second order; differentiation lowers the order by one)", 4)
     vanishing_order_rule(ctx)
     rep.rule("C12.R7", "an energy computed from the law's own forces (Clapeyron) is admitted only for force laws that are linear in the strains", 2)
@@ -429,4 +473,13 @@ NEUTRAL += [
 MUTANTS += [
     dict(id="c12-r8-seed", canary=True, what="[seeded by sub-agent] Harsch2021.B_n as secant stiffness times B_Gamma (reference shear term dropped)", file=MM,
          old="        return self.C_n @ dG + self.Ei[0] * (1 - lambda0_ / lambda_) * B_Gamma\n", new="        return self.C_n @ B_Gamma + self.Ei[0] * (1 - lambda0_ / lambda_) * B_Gamma\n", expect="C12.R8"),
+]
+
+MUTANTS += [
+    dict(id="c12-r9-inplace", canary=True, what="rod Jacobian routine scales the law's tangent in place by the quadrature weight (B_n_B_Gamma *= qwi rewrites Simo1986.C_n itself)", file='cardillo/rods/_base.py',
+         old='            B_n_qe = B_n_B_Gamma @ B_Gamma_qe + B_n_B_Kappa @ B_Kappa_qe\n', new="            B_n_B_Gamma *= qwi\n"+'            B_n_qe = B_n_B_Gamma @ B_Gamma_qe + B_n_B_Kappa @ B_Kappa_qe\n', expect="C12.R9"),
+]
+NEUTRAL += [
+    dict(id="c12-n-r9", canary=True, what="rod Jacobian routine scales a product with the law's tangent (fresh array)", file='cardillo/rods/_base.py',
+         old='            B_n_qe = B_n_B_Gamma @ B_Gamma_qe + B_n_B_Kappa @ B_Kappa_qe\n', new="            B_n_qe = (B_n_B_Gamma * 1.0) @ B_Gamma_qe + B_n_B_Kappa @ B_Kappa_qe\n"),
 ]
